@@ -120,7 +120,10 @@ type Cluster struct {
 	Script func(e *Entry) string
 	// OnEvent is called (without the lock) whenever something observable happened.
 	OnEvent func()
-	Now     func() time.Duration
+	// Mutate, when set, may replace a complete response frame just before it is written (msg is the decoded
+	// form when the broker encoded it with the protocol package, nil for raw frames). Called with the lock held.
+	Mutate func(e *Entry, frame []byte, msg protocol.Message) []byte
+	Now    func() time.Duration
 
 	// ClientWritePoints makes every client-side network write a scheduling point; GateResponses
 	// withholds response bytes until Release is called (partial delivery under explorer control).
@@ -217,7 +220,7 @@ func (c *Cluster) Dial(ctx context.Context, network, addr string) (net.Conn, err
 		return nil, &net.OpError{Op: "dial", Net: "tcp", Addr: vnet.Addr{S: addr}, Err: vnet.ErrRefused.Err}
 	}
 	id := len(c.Conns)
-	cli, srv := vnet.Pipe(id, fmt.Sprintf("client:%d", 40000+id), b.Addr(), true)
+	cli, srv := vnet.Pipe(id, "client:"+strconv.Itoa(40000+id), b.Addr(), true)
 	cli.PointOnWrite = c.ClientWritePoints
 	if c.GateResponses {
 		srv.Gate()
@@ -226,7 +229,9 @@ func (c *Cluster) Dial(ctx context.Context, network, addr string) (net.Conn, err
 	c.Conns = append(c.Conns, sc)
 	c.Dials = append(c.Dials, DialRec{At: c.Now(), Addr: addr, Conn: id})
 	c.mu.Unlock()
+	racectl.On() // the broker's goroutine may know what its creator knows (the reverse must not happen)
 	go c.serve(sc)
+	racectl.Off()
 	return cli, nil
 }
 
@@ -390,6 +395,9 @@ func (c *Cluster) writeFrame(e *Entry, body []byte) {
 	w.I32(int32(4 + len(body)))
 	w.I32(e.CorrID)
 	w.Raw(body)
+	if c.Mutate != nil {
+		w.B = c.Mutate(e, w.B, nil)
+	}
 	e.RespBytes = len(w.B)
 	e.sc.srv.Write(w.B)
 }
@@ -399,8 +407,12 @@ func (c *Cluster) writeMsg(e *Entry, msg protocol.Message) {
 	if err := protocol.WriteResponse(&buf, e.Version, e.CorrID, msg); err != nil {
 		panic(fmt.Sprintf("fk: cannot encode %T v%d: %v", msg, e.Version, err))
 	}
-	e.RespBytes = buf.Len()
-	e.sc.srv.Write(buf.Bytes())
+	frame := buf.Bytes()
+	if c.Mutate != nil {
+		frame = c.Mutate(e, frame, msg)
+	}
+	e.RespBytes = len(frame)
+	e.sc.srv.Write(frame)
 }
 
 // Answer answers a pending request. alt:
